@@ -39,9 +39,9 @@ type RetryCfg struct {
 	DLQ        bool          `json:"dead_queue"`
 	// FailPlan[i] = number of failing attempts of the i-th batch handed to the
 	// send function (-1 = always fails); batches beyond the plan succeed.
-	FailPlan []int `json:"fail_plan"`
+	FailPlan []int         `json:"fail_plan"`
 	DLQFlush time.Duration `json:"dlq_flush"`
-	DLQCount int `json:"dlq_count"`
+	DLQCount int           `json:"dlq_count"`
 }
 
 type Cfg struct {
@@ -157,8 +157,41 @@ func (h *H) Gen(rng *rand.Rand, tier, prop string) core.Cfg {
 		c.Retry = r
 		c.Sim.MaxSteps = 3_000_000
 		c.Sim.Horizon = 45 * time.Minute
+		if r.Retention < 5*time.Second {
+			// the horizon must lie far behind the longest time the scripted failures can take (simulated time is free):
+			// a run that is still retrying at the horizon is then really stuck, not merely slow
+			if b := 3 * planBound(r); b > c.Sim.Horizon {
+				c.Sim.Horizon = b
+			}
+		}
 	}
 	return c
+}
+
+// planBound is a generous upper bound of the simulated time the scripted failure plan can keep a worker
+// busy: per failing batch its attempts, each followed by a pause of at most 1.5 x the nominal interval,
+// the interval taken as capped at two minutes (the library caps it earlier).
+func planBound(r *RetryCfg) time.Duration {
+	var total time.Duration
+	for _, f := range r.FailPlan {
+		n := f
+		if r.AttemptNum >= 0 && (f < 0 || f > r.AttemptNum+1) {
+			n = r.AttemptNum + 1
+		}
+		if n < 0 {
+			continue // unlimited retries of a batch that never succeeds: legitimately endless
+		}
+		iv := float64(r.Retention)
+		for i := 0; i < n; i++ {
+			d := iv
+			if d > float64(2*time.Minute) {
+				d = float64(2 * time.Minute)
+			}
+			total += time.Duration(1.5*d) + time.Second
+			iv *= r.Multiplier
+		}
+	}
+	return total
 }
 
 func (h *H) Shrink(cc core.Cfg) []core.Cfg {
@@ -271,23 +304,23 @@ type attempt struct {
 }
 
 type run struct {
-	cfg     *Cfg
-	o       *core.Outcome
-	evs     []*evInfo
-	byPtr   map[*pipeline.Event]*evInfo
-	outs    []*outCall
-	ncommit int
-	stopCall, stopRet time.Duration
-	stopped, stopDone bool
-	addInFlight       int
-	inFlightSends     int
-	maxOverlap        int
+	cfg                *Cfg
+	o                  *core.Outcome
+	evs                []*evInfo
+	byPtr              map[*pipeline.Event]*evInfo
+	outs               []*outCall
+	ncommit            int
+	stopCall, stopRet  time.Duration
+	stopped, stopDone  bool
+	addInFlight        int
+	inFlightSends      int
+	maxOverlap         int
 	finishedOutOfOrder bool
-	stopRacedAdd      bool
-	errorsReported    int
-	curOut            map[*pipeline.Batch]*outCall
-	batchNo           map[string]int
-	legitBlocked      bool
+	stopRacedAdd       bool
+	errorsReported     int
+	curOut             map[*pipeline.Batch]*outCall
+	batchNo            map[string]int
+	legitBlocked       bool
 }
 
 type ctl struct {
@@ -609,8 +642,8 @@ func (s *sink) Start(_ pipeline.AnyConfig, params *pipeline.OutputPluginParams) 
 	})
 	s.batcher.Start(s.ctx)
 }
-func (s *sink) Stop()                   { s.batcher.Stop() }
-func (s *sink) Out(e *pipeline.Event)   { s.batcher.Add(e) }
+func (s *sink) Stop()                 { s.batcher.Stop() }
+func (s *sink) Out(e *pipeline.Event) { s.batcher.Add(e) }
 
 // ---- oracles ----
 
